@@ -7,6 +7,7 @@ strength = sys.argv[9] if len(sys.argv) > 9 else None
 BRIEF = {
  "13": "history length and order dependence (a count of operations, a size boundary, the k-th repetition, one particular order)",
  "14": "see DESIGN.md 10.4",
+ "16": "re-entrancy and user code running in the middle of an operation: invisible for passive callbacks, appears when the user code behind a seam uses the library itself, raises, or the operation is entered again before it finished",
  "15": "several live objects and interleaved sessions: invisible while one object is used from start to finish, appears when two or more live objects / sessions are used in turn",
 }
 m = {"id": sid, "round": int(rnd), "property": sid.split("-")[0], "change": change,
